@@ -504,6 +504,68 @@ package participle
 //@   requires m.Lexer != nil && m.mapper != nil
 //@   before call Mapper.call#1: assert arg1 == t [C18]
 
+// ---------------------------------------------------------------------------------------------
+// options.go, parser.go: Build (C01, C13: the lookahead in force is the one the options chose)
+// ---------------------------------------------------------------------------------------------
+
+// UseLookahead(n) stores n unchanged: negative (unlimited), 0 and values above MaxLookahead included.
+//@ func UseLookahead$1 [C13 C01]
+//@   requires p != nil
+//@   modifies p.useLookahead
+//@   ensures result0 == nil && p.useLookahead == n
+
+//@ func Lexer$1 [C15]
+//@   requires p != nil
+//@   modifies p.lex
+//@   ensures result0 == nil && p.lex == def
+
+// An Option may change any parser option (user options cannot be written outside the package, the
+// type's parameter is unexported); options are assumed to leave a lexer definition in place.
+//@ interface Option.call
+//@   params fn, p
+//@   requires p != nil
+//@   modifies *p
+//@   ensures p.lex != nil
+
+//@ func (*Parser[G]).setCaseInsensitiveTokens
+//@   trusted
+//@   modifies p.caseInsensitiveTokens
+//@ func validate
+//@   trusted
+//@ func newGeneratorContext
+//@   trusted
+//@   fresh result
+//@   ensures result != nil && result.typeNodes != nil && fresh(result.typeNodes)
+//@ func (*generatorContext).addCustomDefs
+//@   trusted
+//@ func (*generatorContext).addUnionDefs
+//@   trusted
+
+// Build: the lookahead of the built parser is whatever the options left (1 when no option touched it):
+// Build itself neither clamps nor defaults it after the options ran. The lexer of the built parser is
+// the options' lexer, wrapped in a mappingLexerDef exactly when mappers were registered.
+//@ global lexer.TextScannerLexer != nil
+//@ func Build [C01 C13 C18 C15]
+//@   requires forall(k, 0, len(options), options[k] != nil)
+//@   let la = p.useLookahead after call Definition.Symbols#1
+//@   let lx = p.lex after call Definition.Symbols#1
+//@   let nm = len(p.mappers) after call Definition.Symbols#1
+//@   ensures err == nil ==> parser != nil && parser.useLookahead == la
+//@   ensures err == nil && len(options) == 0 ==> parser.useLookahead == 1
+//@   ensures err == nil && nm == 0 ==> parser.lex == lx
+//@   ensures err == nil && nm > 0 ==> typeis(parser.lex, *mappingLexerDef) && parser.lex.(*mappingLexerDef).l == lx && parser.lex.(*mappingLexerDef).mapper != nil
+//@   loop 1 invariant -1 <= rangeindex && rangeindex < len(options) && p != nil && fresh(p)
+//@   loop 1 invariant rangeindex == -1 ==> p.useLookahead == 1
+//@   loop 1 invariant rangeindex >= 0 ==> p.lex != nil
+//@   loop 1 invariant rangeindex == -1 ==> p.lex != nil
+//@   loop 1 decreases len(options) - rangeindex
+//@   loop 2 invariant -1 <= rangeindex && rangeindex < len(p.elide)
+//@   loop 2 decreases len(p.elide) - rangeindex
+//@   loop 3 invariant -1 <= rangeindex && rangeindex < len(p.mappers) && mappers != nil
+//@   loop 3 decreases len(p.mappers) - rangeindex
+//@   loop 4 invariant -1 <= rangeindex && rangeindex < len(mapper.symbols) && mappers != nil
+//@   loop 4 decreases len(mapper.symbols) - rangeindex
+
 // The combined mapper built by Build: mappers registered for all tokens first, then those registered
 // for the token's own type, each applied once, in registration order, stopping at the first error.
 //@ func Build$1 [C18]
